@@ -152,7 +152,7 @@ def _finite_formula(f, target):
 
 def _r3(ctx):
     prog = ctx.prog
-    ctx.rule("R-C08-3", floor=4, what="basquin_load o basquin_cycles == id on the finite branch (normal form); infinite default")
+    ctx.rule("R-C08-3", floor=6, what="basquin_load o basquin_cycles == id on the finite branch (normal form); infinite default")
     fc = prog.func(WC + ".basquin_cycles")
     fl = prog.func(WC + ".basquin_load")
     sc = _finite_formula(fc, "cycles")
@@ -199,6 +199,19 @@ def _r3(ctx):
         ctx.holds(fc, sc, "cycles(load(N)) == N")
     else:
         ctx.violated(fc, sc, "cycles(load(N)) normalises to %r, not N" % comp2, text="cycles o load")
+    # monotone: d cycles / d load < 0 (k > 0) ; continuity at the knee: N(SD) == ND and L(ND) == SD for either slope
+    from ..nf import derivative, _poly_sign, _subst_atom
+    dN = derivative(N_of_L, "L")
+    if dN.den.as_const() is not None and _poly_sign(dN.num) == -1 * (1 if dN.den.as_const() > 0 else -1):
+        ctx.holds(fc, sc, "d cycles / d load = %r < 0: allowable cycles are non-increasing in the load" % dN)
+    else:
+        ctx.violated(fc, sc, "d cycles / d load = %r is not negative for positive k: cycles would not decrease with the load" % dN,
+                     text="monotone")
+    if _subst_atom(N_of_L, "L", RF.sym("SD")) == RF.sym("ND") and _subst_atom(L_of_N, "N", RF.sym("ND")) == RF.sym("SD"):
+        ctx.holds(fc, sc, "continuity at the knee: cycles(SD) == ND and load(ND) == SD for every slope")
+    else:
+        ctx.violated(fc, sc, "the curve does not pass through the knee (SD, ND): cycles(SD) = %r, load(ND) = %r" %
+                     (_subst_atom(N_of_L, "L", RF.sym("SD")), _subst_atom(L_of_N, "N", RF.sym("ND"))), text="knee")
     # defaults: infinite life / endurance limit outside the finite branch, finite mask = isfinite(k)
     d = [s for s in fc.node.body if isinstance(s, ast.Assign) and isinstance(s.targets[0], ast.Name) and s.targets[0].id == "cycles"]
     ok = d and isinstance(d[0].value, ast.Call) and call_name(d[0].value) in ("np.full_like", "np.full") and \
